@@ -17,6 +17,7 @@ import (
 //	               record whose body) is a list of n small integers
 //	long_map/<n>   the same with a map of n entries
 //	bigvalue/<n>   the same with ONE string of n bytes (a single Arrow buffer of that size)
+//	bigrandom/<n>  the same with an incompressible string of n bytes (a payload of that size on the wire)
 //	haul/<n>, haulwide/<n>   a long-haul batch of n items (haulInput)
 func synthInput(signal, synth string) (Input, error) {
 	kind, arg, _ := strings.Cut(synth, "/")
@@ -35,6 +36,19 @@ func synthInput(signal, synth string) (Input, error) {
 		switch kind {
 		case "bigvalue":
 			v.SetStr(strings.Repeat("x", n))
+		case "bigrandom":
+			// n bytes that do not compress (a fixed xorshift sequence rendered
+			// in a 64-character alphabet): the PAYLOAD stays large under zstd
+			const alphabet = "ABCDEFGHIJKLMNOPQRSTUVWXYZabcdefghijklmnopqrstuvwxyz0123456789+/"
+			b := make([]byte, n)
+			x := uint64(88172645463325252)
+			for i := range b {
+				x ^= x << 13
+				x ^= x >> 7
+				x ^= x << 17
+				b[i] = alphabet[x&63]
+			}
+			v.SetStr(string(b))
 		case "long_list":
 			sl := v.SetEmptySlice()
 			sl.EnsureCapacity(n)
@@ -49,7 +63,7 @@ func synthInput(signal, synth string) (Input, error) {
 			_ = v.SetEmptyMap().FromRaw(raw)
 		}
 	}
-	if kind != "long_list" && kind != "long_map" && kind != "bigvalue" {
+	if kind != "long_list" && kind != "long_map" && kind != "bigvalue" && kind != "bigrandom" {
 		return Input{}, fmt.Errorf("unknown synthetic batch %q", synth)
 	}
 	in := Input{Signal: signal}
